@@ -95,10 +95,12 @@ def r09_1(ctx):
     c = repo.func(f"{EZ}:EZSP.connect")
     ctx.fn(c)
     px = PX(repo, models=[("bellows.uart.connect", Outcomes(OK(Obj(TypeRef("Gateway"), {}, tag="gw"))))], inline=same_class(stop=("handle_callback",)))
-    for p in px.explore(c, lambda: (self_obj(ez_cls(ctx), {"_gw": None, "_ezsp_version": 4}), {})):
-        st = p.store["self"]
-        ctx.require(p.terminal == "return" and proto_version(ctx, st.get("_protocol")) == 4 and getattr(st.get("_gw"), "tag", None) == "gw", "connect",
-                    f"connect() leaves handler v{proto_version(ctx, st.get('_protocol'))}, gateway {st.get('_gw')!r}", func=c)
+    for before in (4, 8, 14):  # (also on an object that was connected, negotiated and closed before: a new link starts in the legacy format)
+        for p in px.explore(c, lambda: (self_obj(ez_cls(ctx), {"_gw": None, "_ezsp_version": before}), {})):
+            st = p.store["self"]
+            ctx.require(p.terminal == "return" and proto_version(ctx, st.get("_protocol")) == 4 and getattr(st.get("_gw"), "tag", None) == "gw",
+                        "connect" if before == 4 else f"connect:after-v{before}",
+                        f"connect() (version recorded before: {before}) leaves handler v{proto_version(ctx, st.get('_protocol'))}, gateway {st.get('_gw')!r}", func=c)
 
 
 @rule("R09.2", ["C09", "C13"], "T-FUN", floor=14)
